@@ -248,6 +248,11 @@ pub fn gen_history(r: &mut Rng, g: &GenCfg) -> History {
         ops.push(AOp::Av { ci: a, p: IdRef::Latest, payload: PayloadSpec::small(r), cuts: r.next() });
         ops.push(AOp::As { ci: a, v: IdRef::Latest, payload: PayloadSpec::small(r), cuts: r.next() });
         ops.push(AOp::Gs { ci: b });
+        // a restart right here (set-ups that reopen the database; a no-op elsewhere): B's latest version is, at this moment, the
+        // parent of a version of A and of no version of B
+        ops.push(AOp::Reopen);
+        ops.push(AOp::Gcv { ci: b, p: IdRef::Latest });
+        ops.push(AOp::Walk { ci: b });
     }
     if nc >= 2 && r.chance(g.cross_prefix_pct, 100) {
         // twins: two clients upload byte-identical segments on identical parents (both start at nil): nothing about
